@@ -315,6 +315,9 @@ func deliver(batch []*Comp, r *rand.Rand) ([]*Parsed, error) {
 		}
 		seen[strings.ToLower(l.Cmd)] = true
 		s.C.HandleFunc(l.Cmd, func(c *client.Conn, l *client.Line) {
+			if strings.HasPrefix(l.Raw, "PING :sync-") {
+				return
+			}
 			mu.Lock()
 			got[cur] = append(got[cur], l)
 			mu.Unlock()
